@@ -225,8 +225,14 @@ func (pkgs allpkgs) namedTypeToInterface(
 		}
 	}
 
+	// Only methods which Go itself promotes belong to the interface: a name that is
+	// ambiguous at its shallowest depth (e.g. defined once under one embedded field and
+	// twice, a level further down, under another) is not in the method set of the type.
+	promoted := types.NewMethodSet(types.NewPointer(t))
 	for _, m := range methodsToAdd {
-		result.Methods = append(result.Methods, m)
+		if promoted.Lookup(t.Obj().Pkg(), m.Name) != nil {
+			result.Methods = append(result.Methods, m)
+		}
 	}
 
 	return result
